@@ -68,6 +68,9 @@ pub fn run_case(ctx: &mut Ctx, case: &Value) {
     for (id, sents) in &per_mark {
         ctx.report.bump_by("sentinels-searched", sents.len() as u64);
         for s in sents {
+            // a sentinel is looked for as a whole JSON string (`"…"`): a clear member may be named after a
+            // hidden sibling plus a suffix, which contains the sibling's name without being it
+            let s = &format!("\"{}\"", s);
             if jwt_view.iter().any(|seg| seg.contains(s.as_str())) {
                 ctx.report.diff("property", "Issuer::encode", "Issuer::encode:plaintext-of-disclosable-claim-in-jwt", case, json!({"sentinel": s, "mark": id}));
             }
@@ -109,6 +112,7 @@ pub fn run_case(ctx: &mut Ctx, case: &Value) {
         for (id, sents) in &per_mark {
             if kept.contains(id) { continue; }
             for s in sents {
+                let s = &format!("\"{}\"", s);
                 if view.iter().any(|seg| seg.contains(s.as_str())) {
                     ctx.report.diff("property", "Holder::build", "Holder::build:withheld-claim-in-presentation", &c2, json!({"sentinel": s, "mark": id, "redacted": r}));
                 }
@@ -118,7 +122,7 @@ pub fn run_case(ctx: &mut Ctx, case: &Value) {
 }
 
 pub fn run(ctx: &mut Ctx, replay: Option<&Value>) {
-    ctx.report.rule = "own-issued tokens over random trees in which every member name and every scalar is a unique sentinel containing '*' (not a base64url character); the decoded header/payload of the issuer JWT and every decoded segment of Holder::build output (5 redaction lists per token, bound and unbound) are searched for the sentinels that must be absent; disclosure count = marks neither redacted nor below a redacted one; non-trivial = distinct (tree, order) with a nested or positional mark".to_string();
+    ctx.report.rule = "own-issued tokens over random trees in which every member name and every scalar is a unique sentinel containing '*' (not a base64url character); the decoded header/payload of the issuer JWT and every decoded segment of Holder::build output (5 redaction lists per token, bound and unbound) are searched for the sentinels (as whole JSON strings; one member in six is named after a sibling plus a suffix, arrays of 11-13 elements occur) that must be absent; disclosure count = marks neither redacted nor below a redacted one; non-trivial = distinct (tree, order) with a nested or positional mark".to_string();
     if let Some(case) = replay {
         run_case(ctx, case);
         return;
